@@ -27,6 +27,7 @@ import (
 	stdnet "net"
 	"os"
 	"runtime"
+	"runtime/pprof"
 	"sort"
 	"strconv"
 	"time"
@@ -323,8 +324,11 @@ func (d *driver) run(entry string, data []byte) result {
 		case "cli":
 			rd := bytes.NewReader(data)
 			for {
+				before := rd.Len()
 				frame, err := gnet.VerifReadProtoFrame(rd, d.pool, d.max)
-				if err == io.EOF {
+				if err == io.EOF && rd.Len() == before {
+					// clean end of stream: nothing of a next frame was there. (readProtoFrame also returns a
+					// bare io.EOF when the stream ends right after a length prefix; that is a truncated frame.)
 					res.End = "eof"
 					break
 				}
@@ -357,8 +361,10 @@ func (d *driver) run(entry string, data []byte) result {
 	for _, a := range src {
 		res.Acc = append(res.Acc, d.project(a))
 	}
-	if len(res.Err) > 120 {
-		res.Err = res.Err[:120]
+	if res.End != "panic" {
+		res.Err = "" // the error text is not judged; keep the trace small
+	} else if len(res.Err) > 200 {
+		res.Err = res.Err[:200]
 	}
 	return res
 }
@@ -389,9 +395,7 @@ func expand(chunks []chunk, cut int) []byte {
 			}
 			continue
 		}
-		for i := 0; i < c.N; i++ {
-			b = append(b, byte(c.V))
-		}
+		b = append(b, bytes.Repeat([]byte{byte(c.V)}, c.N)...)
 	}
 	if cut >= 0 && cut < len(b) {
 		b = b[:cut]
@@ -505,6 +509,12 @@ func main() {
 	if err != nil {
 		fatal(err.Error())
 	}
+	if pf := os.Getenv("WIRECODEC_PROF"); pf != "" {
+		f, _ := os.Create(pf)
+		pprof.StartCPUProfile(f)
+		defer pprof.StopCPUProfile()
+	}
+	runtime.GOMAXPROCS(1) // single-threaded driver; keeps the stop-the-world of ReadMemStats cheap
 	d := newDriver(max)
 	// warm-up: lazy protobuf initialisation, pool buckets, registry caches
 	for i := range d.cat.Msgs {
